@@ -89,6 +89,9 @@ func (c *Ctx) resultVarOfCall(fd *ast.FuncDecl, call *ast.CallExpr) types.Object
 type visitInfo struct {
 	call   *ast.CallExpr
 	stored bool
+	// onlyWhen: on the effect normal form, every visit of the position is made under a test of the value of a
+	// sibling field of the object that holds it ("" otherwise)
+	onlyWhen string
 }
 
 // schemaVisits computes, for one schema expander, the positions below its
@@ -211,6 +214,9 @@ func (c *Ctx) schemaVisitsFrom(fam *expFamily, fd *ast.FuncDecl, target types.Ob
 	// the same facts read off the effect normal form (closures, generic iteration helpers and lists of
 	// positions are inlined there); they are added to what the syntactic pass found
 	for p, vi := range c.schemaVisitsSim(fam, fd, target, depth) {
+		if prev, dup := out[p]; dup && vi.onlyWhen != "" {
+			prev.onlyWhen = vi.onlyWhen
+		}
 		if prev, dup := out[p]; !dup || (!prev.stored && vi.stored) {
 			out[p] = vi
 		}
@@ -292,8 +298,13 @@ func (c *Ctx) expanderHappyPathsUncached(fam *expFamily, fd *ast.FuncDecl) ([]sp
 		return false, false
 	}
 	paths, unsup := c.simulateForced(fd, func(f *types.Func) bool {
-		if fam.members[f] || c.isStopPredicateFunc(f) {
+		if c.isStopPredicateFunc(f) {
 			return false
+		}
+		if fam.members[f] {
+			// a member that merely hands a schema it holds by reference to a schema expander (and stores the
+			// result back) is looked through: the positions it visits are those of its caller
+			return c.isNestedSchemaWrapper(fam, f)
 		}
 		// only what lies between this expander and the family matters: functions that reach a member, and
 		// helpers that are handed function values
@@ -302,6 +313,10 @@ func (c *Ctx) expanderHappyPathsUncached(fam *expFamily, fd *ast.FuncDecl) ([]sp
 			if _, isFunc := sig.Params().At(i).Type().Underlying().(*types.Signature); isFunc {
 				return true
 			}
+		}
+		// (and leaf accessors: x.schemaOrNil() stands for the position it selects)
+		if len(c.staticCallees(f)) == 0 && sig.Results().Len() == 1 {
+			return true
 		}
 		return c.reaches(f, func(h *types.Func) bool { return h != f && fam.members[h] })
 	}, false, force)
@@ -318,6 +333,44 @@ func (c *Ctx) expanderHappyPathsUncached(fam *expFamily, fd *ast.FuncDecl) ([]sp
 		}
 	}
 	return paths, unsup == "" && len(paths) > 0
+}
+
+// isNestedSchemaWrapper: a family member that is not a schema expander itself, takes a *Schema, and calls a schema
+// expander directly with what that pointer designates.
+func (c *Ctx) isNestedSchemaWrapper(fam *expFamily, f *types.Func) bool {
+	if fam.schemaExp[f] {
+		return false
+	}
+	fd := c.decl(f)
+	if fd == nil || fd.Body == nil {
+		return false
+	}
+	sig := f.Type().(*types.Signature)
+	var ptr types.Object
+	for i := 0; i < sig.Params().Len(); i++ {
+		if p, isPtr := sig.Params().At(i).Type().(*types.Pointer); isPtr && isNamed(p.Elem(), c.Types, "Schema") {
+			ptr = c.paramObj(fd, i)
+		}
+	}
+	if ptr == nil {
+		return false
+	}
+	found := false
+	ast.Inspect(fd.Body, func(n ast.Node) bool {
+		call, ok := n.(*ast.CallExpr)
+		if !ok || len(call.Args) == 0 {
+			return true
+		}
+		if g, isF := c.callee(call).(*types.Func); isF && fam.schemaExp[g] {
+			if st, isStar := unparen(call.Args[0]).(*ast.StarExpr); isStar {
+				if id, isId := unparen(st.X).(*ast.Ident); isId && c.objOf(id) == ptr {
+					found = true
+				}
+			}
+		}
+		return true
+	})
+	return found
 }
 
 // isStopPredicateFunc: a package method taking one error and returning bool (the stop-on-error predicate).
@@ -400,6 +453,7 @@ func (c *Ctx) schemaVisitsSim(fam *expFamily, fd *ast.FuncDecl, target types.Obj
 	if !ok {
 		return out
 	}
+	nVisits, nCond, condOf := map[string]int{}, map[string]int{}, map[string]string{}
 	for _, p := range paths {
 		for i, e := range p.effs {
 			if e.kind != "call" || len(e.call.args) == 0 {
@@ -449,12 +503,84 @@ func (c *Ctx) schemaVisitsSim(fam *expFamily, fd *ast.FuncDecl, target types.Obj
 				continue
 			}
 			key := joinSteps(pos)
+			sib := c.siblingValueTest(fam, p, e.ncond, pos, target)
+			nVisits[key]++
+			if sib != "" {
+				nCond[key]++
+				condOf[key] = sib
+			}
 			if prev, dup := out[key]; !dup || (!prev.stored && stored) {
 				out[key] = &visitInfo{call: e.call.call, stored: stored}
 			}
 		}
 	}
+	for key, vi := range out {
+		if nVisits[key] > 0 && nCond[key] == nVisits[key] {
+			vi.onlyWhen = condOf[key]
+		}
+	}
 	return out
+}
+
+// siblingValueTest: among the conditions in force at a visit of position pos (below target), one that tests the
+// value of another field of the object holding the position (held through a pointer, or an element of a
+// collection): the sub-schema is then expanded only for some values of that field. Nil tests of the position and
+// of what lies above it are decided by the happy-path hook and never appear here.
+func (c *Ctx) siblingValueTest(fam *expFamily, p spath, ncond int, pos []string, target types.Object) string {
+	if len(pos) < 2 {
+		return ""
+	}
+	parent := pos[:len(pos)-1]
+	// the holder must be a sub-object of its own (a pointer field or an element), not the embedded props of the root
+	if pt := c.simTypeAtPath(svPath{root: target, steps: parent}); pt == nil {
+		return ""
+	} else if _, isPtr := pt.(*types.Pointer); !isPtr && !strings.HasPrefix(parent[len(parent)-1], "[") {
+		return ""
+	}
+	if ncond > len(p.conds) {
+		ncond = len(p.conds)
+	}
+	for _, cd := range p.conds[:ncond] {
+		if cd.loop {
+			continue
+		}
+		v := cd.v
+		for {
+			switch x := v.(type) {
+			case svNot:
+				v = x.x
+				continue
+			case svBin:
+				if _, isK := x.y.(svConst); isK {
+					v = x.x
+					continue
+				}
+				if _, isK := x.x.(svConst); isK {
+					v = x.y
+					continue
+				}
+			}
+			break
+		}
+		q, ok := c.posBelow(fam, v, target, 0)
+		if !ok || len(q) != len(pos) || q[len(q)-1] == pos[len(pos)-1] {
+			continue
+		}
+		same := true
+		for i := range parent {
+			if q[i] != parent[i] {
+				same = false
+			}
+		}
+		if same {
+			t := svString(cd.v)
+			if cd.neg {
+				t = "!(" + t + ")"
+			}
+			return t
+		}
+	}
+	return ""
 }
 
 // storedBack: after the call, an assignment stores *res (or res) to the position (root, steps).
@@ -561,6 +687,8 @@ func ruleVisit(c *Ctx) {
 			c.ob(rule, "Schema."+p, token.NoPos, false, "sub-schema position is never passed to the schema expander: a $ref below it is left in the output (or a cycle through it is not seen)")
 		case !vi.stored:
 			c.ob(rule, "Schema."+p, vi.call.Pos(), false, "sub-schema is expanded but the result is not stored back at the same position")
+		case vi.onlyWhen != "":
+			c.ob(rule, "Schema."+p, vi.call.Pos(), false, "the sub-schema at this position is handed to the schema expander only where "+vi.onlyWhen+" holds: for the other values of that field a $ref below it is left in the output")
 		default:
 			c.ob(rule, "Schema."+p, vi.call.Pos(), true, "")
 		}
@@ -1248,6 +1376,10 @@ func (c *Ctx) isNormalisedRef(fd *ast.FuncDecl, e ast.Expr, env map[types.Object
 	}
 	if st, ok := e.(*ast.StarExpr); ok {
 		e = unparen(st.X)
+	}
+	// the normaliser called in place: *normalizeRef(&x.Ref, base)
+	if call, isCall := e.(*ast.CallExpr); isCall && c.isSpecFunc(call, "normalizeRef") {
+		return true
 	}
 	id, ok := e.(*ast.Ident)
 	if !ok {
